@@ -92,6 +92,13 @@ class Printer:
     self.opt = opt
 
   def expr(self, e, top=False):
+    s = self._expr(e, top)
+    rng = self.opt.get('paren_rng')
+    if rng is not None and rng.random() < self.opt.get('paren_prob', 0.2):
+      return '(' + s + ')'
+    return s
+
+  def _expr(self, e, top=False):
     if 'lit' in e:
       return lit_text(e['lit'])
     if 'var' in e:
@@ -102,7 +109,8 @@ class Printer:
         s = '%s %s %s' % (self.expr(args[0]), f, self.expr(args[1]))
         return '(' + s + ')'
       if f == '-' and len(args) == 1:
-        inner = self.expr(args[0])
+        # `-3` is one number literal token: its digits are not an expression of their own
+        inner = self._expr(args[0]) if 'lit' in args[0] else self.expr(args[0])
         # `-F(x)` is read by the parser as a call of a predicate named "-F" (known finding): parenthesise
         if 'op' in args[0] and args[0]['op'] not in INFIX and not self.opt.get('raw_unary_minus'):
           return '(-(%s))' % inner
@@ -154,6 +162,13 @@ class Printer:
     return ', '.join(out)
 
   def prop(self, p, top=False):
+    s = self._prop(p, top)
+    rng = self.opt.get('paren_rng')
+    if rng is not None and not top and rng.random() < self.opt.get('paren_prob', 0.2) and 'and' not in p:
+      return '(' + s + ')'
+    return s
+
+  def _prop(self, p, top=False):
     if 'atom' in p:
       return '%s(%s)' % (p['atom'], self.args(p['args']))
     if 'eq' in p:
